@@ -353,6 +353,22 @@ fn run(m: &Model, seed: u64) -> Result<BTreeSet<Vec<i64>>, String> {
     let r = std::panic::catch_unwind(std::panic::AssertUnwindSafe(|| run_inner(m, seed)));
     let ev = pumpkin_solver::verif::drain();
     let mut bad_reasons = 0;
+    let mut insufficient = 0;
+    {
+        use pumpkin_solver::predicates::Predicate as P;
+        let pv = |p: &P| -> (usize, u8, i64) { match *p { P::LowerBound { domain_id, lower_bound } => (domain_id.id as usize - 1, 0, lower_bound as i64), P::UpperBound { domain_id, upper_bound } => (domain_id.id as usize - 1, 1, upper_bound as i64), P::Equal { domain_id, equality_constant } => (domain_id.id as usize - 1, 2, equality_constant as i64), P::NotEqual { domain_id, not_equal_constant } => (domain_id.id as usize - 1, 3, not_equal_constant as i64) } };
+        let full: Vec<Vec<i64>> = { let pm = Model { doms: m.doms.clone(), is_bool: m.is_bool.clone(), sparse: m.sparse.clone(), cons: vec![] }; enumerate(&pm).into_iter().collect() };
+        let mut checked = 0;
+        for e in &ev {
+            if let pumpkin_solver::verif::Event::Propagation { tag: Some(t), predicate, reason, .. } = e {
+                if checked > 400 { break; }
+                checked += 1;
+                let c = &m.cons[*t as usize - 1];
+                let pp = pv(predicate); let rs: Vec<_> = reason.iter().map(pv).collect();
+                if full.iter().any(|a| holds_r(c, a) && rs.iter().all(|(i, k, v)| pred_holds(*k, *v, a[*i])) && !pred_holds(pp.1, pp.2, a[pp.0])) { insufficient += 1; }
+            }
+        }
+    }
     for e in &ev {
         if let pumpkin_solver::verif::Event::Propagation { reason_held_before, name, predicate, reason, decision_level, .. } = e {
             if reason_held_before.iter().any(|b| !*b) {
@@ -364,7 +380,7 @@ fn run(m: &Model, seed: u64) -> Result<BTreeSet<Vec<i64>>, String> {
         }
     }
     match r {
-        Ok(Ok(x)) => if bad_reasons > 0 { Err(format!("reason-not-held events={bad_reasons}")) } else { Ok(x) },
+        Ok(Ok(x)) => if insufficient > 0 { Err(format!("reason-insufficient events={insufficient}")) } else if bad_reasons > 0 { Err(format!("reason-not-held events={bad_reasons}")) } else { Ok(x) },
         Ok(Err(e)) => Err(e),
         Err(p) => {
             let msg = p.downcast_ref::<String>().cloned().or(p.downcast_ref::<&str>().map(|s| s.to_string())).unwrap_or_default();
